@@ -29,7 +29,7 @@ type Obligation struct {
 	Pos     string  `json:"pos,omitempty"`
 	Verdict Verdict `json:"-"`
 	V       string  `json:"verdict"`
-	Detail  string  `json:"detail,omitempty"` // extracted term / path / message
+	Detail  string  `json:"detail,omitempty"`    // extracted term / path / message
 	Sig     string  `json:"deviation,omitempty"` // for violations: canonical signature of the deviation (known findings match on it)
 	Config  string  `json:"config,omitempty"`
 	Trivial bool    `json:"-"`
@@ -192,30 +192,30 @@ func (k *KnownFile) Match(prop string, o *Obligation) *Finding {
 // Result handling
 
 type Result struct {
-	Property   string
-	Tier       string
-	Seed       int64
-	Start      time.Time
-	Sinks      []*Sink
-	Configs    []string
-	VerifDir   string
-	Explain    string
-	Trusted    []string
-	Assume     []string
-	Technique  string
-	SelfCheck  []string // self-validation lines (fixtures, mutants)
-	Broken     []string // internal failures: floors, fixtures not firing, load errors
+	Property  string
+	Tier      string
+	Seed      int64
+	Start     time.Time
+	Sinks     []*Sink
+	Configs   []string
+	VerifDir  string
+	Explain   string
+	Trusted   []string
+	Assume    []string
+	Technique string
+	SelfCheck []string // self-validation lines (fixtures, mutants)
+	Broken    []string // internal failures: floors, fixtures not firing, load errors
 }
 
 type report struct {
-	Property string      `json:"property"`
-	Rule     string      `json:"rule"`
-	Key      string      `json:"key"`
-	Config   string      `json:"config"`
-	Pos      string      `json:"pos"`
-	Verdict  string      `json:"verdict"`
-	Detail   string      `json:"detail"`
-	Replay   string      `json:"replay_cmd"`
+	Property string `json:"property"`
+	Rule     string `json:"rule"`
+	Key      string `json:"key"`
+	Config   string `json:"config"`
+	Pos      string `json:"pos"`
+	Verdict  string `json:"verdict"`
+	Detail   string `json:"detail"`
+	Replay   string `json:"replay_cmd"`
 }
 
 func sanitize(s string) string {
@@ -382,23 +382,23 @@ func (r *Result) writeEvidence(all []*Obligation, rules []*RuleInfo, analysed ma
 		"seed":        r.Seed,
 		"level":       "other",
 		"coverage": map[string]interface{}{
-			"explanation":         r.Explain,
-			"obligations":         len(all),
-			"discharged":          discharged,
-			"evaluations":         len(all),
-			"distinct_nontrivial": len(distinct),
-			"rule":                "one obligation per (rule, construct key) enumerated from /repo's current source in each build configuration; distinct = distinct (rule,key) pairs over configurations whose construct has a non-empty body / at least one statement examined",
-			"samples":             samples,
-			"rules":               rules,
-			"configurations":      r.Configs,
-			"analysed":            analysed,
-			"exceptions":          excepts,
+			"explanation":            r.Explain,
+			"obligations":            len(all),
+			"discharged":             discharged,
+			"evaluations":            len(all),
+			"distinct_nontrivial":    len(distinct),
+			"rule":                   "one obligation per (rule, construct key) enumerated from /repo's current source in each build configuration; distinct = distinct (rule,key) pairs over configurations whose construct has a non-empty body / at least one statement examined",
+			"samples":                samples,
+			"rules":                  rules,
+			"configurations":         r.Configs,
+			"analysed":               analysed,
+			"exceptions":             excepts,
 			"known_findings_matched": nknown,
-			"self_validation":     r.SelfCheck,
-			"trusted_base":        r.Trusted,
-			"technique":           r.Technique,
-			"exhaustive":          true,
-			"checker_cmd":         fmt.Sprintf("%s/bin/tcheck %s --tier %s", r.VerifDir, r.Property, r.Tier),
+			"self_validation":        r.SelfCheck,
+			"trusted_base":           r.Trusted,
+			"technique":              r.Technique,
+			"exhaustive":             true,
+			"checker_cmd":            fmt.Sprintf("%s/bin/tcheck %s --tier %s", r.VerifDir, r.Property, r.Tier),
 		},
 		"assumptions": r.Assume,
 		"wall_s":      time.Since(r.Start).Seconds(),
